@@ -25,7 +25,7 @@ MANIFEST = {
                  'all raw strings over a separator alphabet (totality + agreement with a reference decoder)',
     'text': 'All lists of up to three pairs over 11 keys x 12 values (separators, escapes, spaces, non-ASCII), in four '
             'encoder flavours, and all raw strings over {a,=,&,+,%,4,b} up to the length bound are parsed by the real '
-            'code at Request.query / forms / params and compared with the reference model. Forms are observed through five deliveries (plain, after a complete / partial read of request.body, one-byte and half-body short reads of wsgi.input).',
+            'code at Request.query / forms / params and compared with the reference model. Forms are observed through seven deliveries (plain, after a complete / partial read of request.body, one-byte and half-body short reads of wsgi.input, chunked transfer encoding in one chunk / 3-byte chunks).',
     'note': 'Bounds: <=3 pairs (quick: all 2-lists, 3-lists over a 5x5 core); raw strings <= 7 (quick) / 9 (thorough). '
             'Trusted: CPython utf-8 decoder, the reference codec in this file.',
 }
@@ -181,7 +181,7 @@ class ShortStream:
         return self.src.readline(self.k if n is None or n < 0 else min(n, self.k))
 
 
-DELIVERIES = ['plain', 'body-read-first', 'body-sniffed-first', 'one-byte-reads', 'half-reads']
+DELIVERIES = ['plain', 'body-read-first', 'body-sniffed-first', 'one-byte-reads', 'half-reads', 'chunked', 'chunked-3']
 
 
 def observe_forms(Request, body_text, qs='', ctype='rotate', delivery='plain'):
@@ -192,6 +192,13 @@ def observe_forms(Request, body_text, qs='', ctype='rotate', delivery='plain'):
     env = {'QUERY_STRING': qs, 'CONTENT_LENGTH': str(len(body)), 'wsgi.input': io.BytesIO(body), 'REQUEST_METHOD': 'POST'}
     if ctype is not None:
         env['CONTENT_TYPE'] = ctype
+    if delivery in ('chunked', 'chunked-3'):
+        # Transfer-Encoding: chunked, no Content-Length (one chunk / chunks of three bytes)
+        step = max(1, len(body)) if delivery == 'chunked' else 3
+        raw = b''.join(b'%x\r\n%s\r\n' % (len(body[i:i + step]), body[i:i + step]) for i in range(0, len(body), step)) + b'0\r\n\r\n'
+        del env['CONTENT_LENGTH']
+        env['HTTP_TRANSFER_ENCODING'] = 'chunked'
+        env['wsgi.input'] = io.BytesIO(raw)
     if delivery == 'one-byte-reads':
         env['wsgi.input'] = ShortStream(body, 1)
     elif delivery == 'half-reads':
@@ -432,6 +439,7 @@ def replay(case):
         except Exception as e:   # noqa
             got = f'raised {type(e).__name__}: {e}'
         how = {'body-read-first': ' after the handler has read request.body completely', 'body-sniffed-first': ' after the handler has read 3 bytes of request.body',
+               'chunked': ' (sent with Transfer-Encoding: chunked, one chunk)', 'chunked-3': ' (sent with Transfer-Encoding: chunked, chunks of 3 bytes)',
                'one-byte-reads': ' (wsgi.input answers every read with one byte)', 'half-reads': ' (wsgi.input answers every read with at most half of the body)'}.get(case.get('delivery'), '')
         return None if got == exp else f'pairs {pairs!r} encoded as {qs!r}: Request.{case["at"]}{how} gives {got!r}, expected {exp!r}'
     s = case['s']
